@@ -6,6 +6,7 @@ import Driver.SpecP
 import Driver.ProcR
 import Driver.Dir
 import Driver.Pop
+import Driver.Run
 open Lean Driver
 
 def handle (line : String) : Verdict :=
@@ -20,6 +21,7 @@ def handle (line : String) : Verdict :=
       else if mode == "spec" then SpecReplay.replay j
       else if mode == "proc" then ProcReplay.replay j
       else if mode == "pop" then PopReplay.replay j
+      else if mode == "run" then RunReplay.replay j
       else if mode == "sel" then DirReplay.replaySel j
       else if mode == "live" then DirReplay.replayLive j
       else if mode == "mix" then DirReplay.replayMix j
